@@ -16,6 +16,10 @@ let ints s = List.map int_of_string (String.split_on_char '.' s)
 let rest s = String.sub s 1 (String.length s - 1)
 
 let bind_serial = ref 0
+let hkind_of = function
+  | "k" -> HKey | "m" -> HMouse | "e" -> HExpose | "f" -> HFocus | "g" -> HGeom | "d" -> HDestroy
+  | k -> failwith ("handler kind " ^ k)
+
 let rec parse_op (s : string) : op =
   if s = "" || s = "-" then ONop else
   match s.[0] with
@@ -30,6 +34,9 @@ let rec parse_op (s : string) : op =
   | 'h' -> OHide (pos_of_idx (int_of_string (rest s)))
   | 't' -> OFocus (pos_of_idx (int_of_string (rest s)))
   | 'S' -> (match ints (rest s) with [i; v] -> OSteal (pos_of_idx i, v <> 0) | _ -> failwith "steal")
+  | 'N' -> (match ints (rest s) with [i; v] -> ONotify (pos_of_idx i, v <> 0) | _ -> failwith "notify")
+  | 'p' -> OMove (pos_of_idx (int_of_string (rest s)))
+  | 'Z' -> OResize
   | 'x' -> OExpose (pos_of_idx (int_of_string (rest s)))
   | 'g' -> OGetRoot (pos_of_idx (int_of_string (rest s)))
   | 'f' -> OFlush (pos_of_idx (int_of_string (rest s)))
@@ -43,11 +50,14 @@ let rec parse_op (s : string) : op =
        let ops = List.map parse_op (List.filter (fun x -> x <> "") (String.split_on_char ',' acts)) in
        let id = !bind_serial in
        incr bind_serial;
-       OBind (pos_of_idx (int_of_string i), z_of_int id, kind = "k", z_of_int (int_of_string ("0x" ^ mask)),
+       OBind (pos_of_idx (int_of_string i), z_of_int id, hkind_of kind, z_of_int (int_of_string ("0x" ^ mask)),
               int_of_string r <> 0, ops)
      | _ -> failwith "bind")
   | 'U' -> (match ints (rest s) with [i; n] -> OUnbind (pos_of_idx i, z_of_int n) | _ -> failwith "unbind")
   | 'y' -> OGeom (pos_of_idx (int_of_string (rest s)))
+  | 'q' | 'z' | 'P' -> OTouch (pos_of_idx (int_of_string (rest s)), None, false)
+  | 'Q' -> (match ints (rest s) with [i; j] -> OTouch (pos_of_idx i, Some (pos_of_idx j), false) | _ -> failwith "pen op")
+  | 'o' -> (match ints (rest s) with [i; j] -> OTouch (pos_of_idx i, Some (pos_of_idx j), true) | _ -> failwith "pen op")
   | _ -> failwith ("op " ^ s)
 
 let join sep l = if l = [] then "-" else String.concat sep l
@@ -72,6 +82,9 @@ let string_of_op = function
   | OHide w -> Printf.sprintf "h%d" (idx_of_pos w)
   | OFocus w -> Printf.sprintf "t%d" (idx_of_pos w)
   | OSteal (w, b) -> Printf.sprintf "S%d.%d" (idx_of_pos w) (if b then 1 else 0)
+  | OMove w -> Printf.sprintf "p%d" (idx_of_pos w)
+  | OResize -> "Z"
+  | ONotify (w, b) -> Printf.sprintf "N%d.%d" (idx_of_pos w) (if b then 1 else 0)
   | OExpose w -> Printf.sprintf "x%d" (idx_of_pos w)
   | OGetRoot w -> Printf.sprintf "g%d" (idx_of_pos w)
   | OFlush w -> Printf.sprintf "f%d" (idx_of_pos w)
@@ -80,6 +93,9 @@ let string_of_op = function
   | OBind (w, _, _, _, _, _) -> Printf.sprintf "b%d" (idx_of_pos w)
   | OUnbind (w, n) -> Printf.sprintf "U%d.%d" (idx_of_pos w) (int_of_z n)
   | OGeom w -> Printf.sprintf "y%d" (idx_of_pos w)
+  | OTouch (w, None, _) -> Printf.sprintf "q%d" (idx_of_pos w)
+  | OTouch (w, Some j, false) -> Printf.sprintf "Q%d.%d" (idx_of_pos w) (idx_of_pos j)
+  | OTouch (w, Some j, true) -> Printf.sprintf "o%d.%d" (idx_of_pos w) (idx_of_pos j)
   | ONop -> "-"
   | OFrameRef w -> Printf.sprintf "+%d" (idx_of_pos w)
   | OFrameUnref w -> Printf.sprintf "~%d" (idx_of_pos w)
@@ -158,7 +174,7 @@ let model_T asis toks =
 (* ---- O: other object kinds ------------------------------------------------------------ *)
 let obj i = pos_of_idx i
 let parse_oop (s : string) : oop =
-  if s = "-" then ObUse [] else
+  if s = "-" || s = "T+n" then ObUse [] else   (* T+n: tickit_term_build with a type no driver accepts: no object *)
   if String.length s >= 2 && s.[1] = '+' then
     (match s.[0] with
      | 'K' -> ObNew ([obj (int_of_string (String.sub s 2 (String.length s - 2)))], [])
@@ -174,10 +190,38 @@ let parse_oop (s : string) : oop =
     | 'y' | 'p' | 'h' | 'f' | 'b' -> ObUse [i; obj (int_of_string (List.nth args 1))]
     | _ -> ObUse [i]
 
+(* H<i>.<j> binds on object i (terminal: KEY, pen: CHANGE) a handler that drops one reference to object j the first time
+   it fires.  The reference-count model has no handlers: the script is expanded here -- every library call that dispatches
+   the owner's event is followed by the unrefs of the handlers that are still armed, in binding order.  Returns the ops and,
+   for each, the index of the token it came from. *)
+let expand_O (toks : string list) : oop list * int list =
+  let handlers = ref [] in                        (* (owner, target, armed ref), in binding order *)
+  let out = ref [] in
+  let emit t o = out := (o, t) :: !out in
+  let fire t owner =
+    List.iter (fun (ow, tg, armed) -> if ow = owner && !armed then begin armed := false; emit t (ObUnref (obj tg)) end) !handlers in
+  List.iteri (fun t s ->
+    let plain () = emit t (parse_oop s) in
+    if s = "-" || (String.length s >= 2 && s.[1] = '+') || (String.length s >= 2 && s.[0] = 'P' && s.[1] = 'c') then plain ()
+    else
+      let args = String.split_on_char '.' (rest s) in
+      let i = int_of_string (List.hd args) in
+      match s.[0] with
+      | 'H' -> let j = int_of_string (List.nth args 1) in
+               emit t (ObUse [obj i; obj j]); handlers := !handlers @ [(i, j, ref true)]
+      | 'k' | 'i' -> plain (); fire t i                               (* one call, KEY events *)
+      | 'a' ->                                                         (* o_setattrs: this many setter calls, each runs CHANGE *)
+        let calls = (match int_of_string (List.nth args 1) with 0 -> 1 | 1 -> 2 | 2 -> 1 | _ -> 12) in
+        for _ = 1 to calls do plain (); fire t i done
+      | _ -> plain ()) toks;
+  let l = List.rev !out in
+  (List.map fst l, List.map snd l)
+
 let model_O toks =
-  match o_run fuel (List.map parse_oop toks) with
+  let (ops, at) = expand_O toks in
+  match o_run fuel ops with
   | OVOk leak -> Printf.sprintf "OK leak=%d" (if leak then 1 else 0)
-  | OVFault k -> Printf.sprintf "UAF %d tr=-" (int_of_nat k)
+  | OVFault k -> Printf.sprintf "UAF %d tr=-" (List.nth at (int_of_nat k))
   | OVNoFuel k -> Printf.sprintf "NOFUEL %d" (int_of_nat k)
 
 (* ---- R: the pen stack of a render buffer ------------------------------------------------ *)
@@ -236,7 +280,7 @@ let oracle line =
         | None -> "BAD no-trace"
         | Some tr ->
           let ops = if tr = "-" then [] else
-              List.map (fun t -> if t.[0] = 'b' then OBind (pos_of_idx (int_of_string (rest t)), Z0, true, Z0, false, [])
+              List.map (fun t -> if t.[0] = 'b' then OBind (pos_of_idx (int_of_string (rest t)), Z0, HKey, Z0, false, [])
                          else parse_op t) (String.split_on_char ',' tr) in
           (* cross-check of the two formulations of the client's side: what the heap-independent
              discipline accepts must satisfy the hypothesis of the proved theorems *)
@@ -253,9 +297,13 @@ let oracle line =
           then "BAD the discipline for histories with events rejects a trace that the client discipline accepts"
           else if oracle_W ops completed leak then "OK" else "BAD well-formed client, implementation: " ^ obs)
      | "O" :: toks ->
-       let ops = List.map parse_oop toks in
+       let (ops, at) = expand_O toks in
+       (* a run that stopped at token k executed (at most) what tokens 0..k stand for *)
        let ops = if completed then ops else
-           (match otoks with _ :: k :: _ -> take (int_of_string k + 1) ops | _ -> ops) in
+           (match otoks with
+            | _ :: k :: _ -> let k = int_of_string k in
+                             List.map fst (List.filter (fun (_, t) -> t <= k) (List.combine ops at))
+            | _ -> ops) in
        if oracle_O ops completed leak then "OK" else "BAD well-formed client, implementation: " ^ obs
      | "R" :: _ ->
        (* every program of render buffer calls is a well-formed client *)
